@@ -40,6 +40,12 @@ EXHAUSTIVE_MEANS = "integer grid d in 0..5 x tau in 0..5 x c in {none, 0..6} x 6
 REQUIRED_CLASSES = ["timeout-first", "cancel-first", "function-first", "tie", "function-ends-cancelled-or-base"]
 
 KINDS = ["value", "exc", "base", "selfcancel_raise", "selfcancel_task", "ignore"]
+# outcome kinds used by generated cases only (the enumerated grids keep the six above)
+EXTRA_KINDS = ["exc_timeout"]
+
+
+class FnTimeout(TimeoutError):
+    """the wrapped function's OWN timeout error (a connect / read timeout of its own): not the wrapper's deadline"""
 
 
 class FnErr(Exception):
@@ -84,6 +90,7 @@ def _run_timed(case, inject_iter):
     val = object()
     err = FnErr("fn")
     base = FnBase("fn")
+    own_timeout = FnTimeout("fn's own timeout")
     t_end = max(d, tau, c or 0, (case.get("bg") or {}).get("d", 0)) + e + 3
 
     async def main(loop):
@@ -115,6 +122,8 @@ def _run_timed(case, inject_iter):
                     return val
                 if kind == "exc":
                     raise err
+                if kind == "exc_timeout":
+                    raise own_timeout
                 if kind == "base":
                     raise base
                 if kind == "selfcancel_raise":
@@ -131,6 +140,12 @@ def _run_timed(case, inject_iter):
 
         async def caller():
             try:
+                if case.get("in_scope"):
+                    # the call is made from inside a scope (the library's normal habitat): same outcomes
+                    from haiway import ctx
+
+                    async with ctx.scope("c16"):
+                        return ("ret", await wrapped(7, k=8))
                 return ("ret", await wrapped(7, k=8))
             except BaseException as exc:  # noqa: BLE001 - the observation
                 return ("exc", exc)
@@ -240,6 +255,10 @@ def _run_timed(case, inject_iter):
                     expected.append(("FnErr", first))
                     if rk == "exc" and rv is err and t == first:
                         ok = True
+                elif kind == "exc_timeout":
+                    expected.append(("FnTimeout (the function's own object)", first))
+                    if rk == "exc" and rv is own_timeout and t == first:
+                        ok = True
                 elif kind == "base":
                     expected.append(("FnBase", first))
                     if rk == "exc" and rv is base and t == first:
@@ -310,6 +329,11 @@ def enumerate_cases(tier):
     # loop clock stands): half-integer durations around integer timeouts, with and without a caller cancellation
     for t0, d, tau, c, kind in itertools.product([1 / 128, 37 / 128], [0.5, 1.5, 2.5], [0.5, 1, 2], [None, 1, 2], KINDS):
         yield {"d": d, "steps": 1, "outcome": kind, "e": 2, "tau": tau, "c": c, "t0": t0}
+    # calls made from inside a scope, and functions raising their OWN TimeoutError before / at / after the deadline
+    for d, tau, c, kind in itertools.product([0, 1, 3], [1, 2], [None, 1], KINDS + EXTRA_KINDS):
+        yield {"d": d, "steps": 1, "outcome": kind, "e": 2, "tau": tau, "c": c, "in_scope": True}
+    for d, tau, c in itertools.product([0, 1, 2, 3], [1, 2, 3], [None, 0, 1, 2]):
+        yield {"d": d, "steps": 1, "outcome": "exc_timeout", "e": 2, "tau": tau, "c": c}
     # two overlapping calls of ONE decorated function: an earlier call ends (value / exception / its own timeout) while the
     # judged call is in flight
     for lead, dbg, out_bg, d, tau, c, kind in itertools.product([0.5, 1], [0.25, 1.5], ["value", "exc"], [1, 3], [1, 2], [None, 1.5], KINDS):
@@ -322,10 +346,10 @@ def enumerate_cases(tier):
 def strategy(tier):
     eighth = st.integers(0, 48).map(lambda n: n / 8)
     return st.builds(
-        lambda d, steps, kind, e, tau, c, t0, bg: {"d": d, "steps": steps, "outcome": kind, "e": e, "tau": tau, "c": c, "t0": t0, "bg": bg},
+        lambda d, steps, kind, e, tau, c, t0, bg, sc: {"d": d, "steps": steps, "outcome": kind, "e": e, "tau": tau, "c": c, "t0": t0, "bg": bg, "in_scope": sc},
         eighth,
         st.sampled_from([1, 2, 4]),
-        st.sampled_from(KINDS),
+        st.sampled_from(KINDS + EXTRA_KINDS),
         st.integers(1, 16).map(lambda n: n / 8),
         st.integers(0, 48).map(lambda n: n / 8),
         st.one_of(st.none(), eighth),
@@ -335,6 +359,7 @@ def strategy(tier):
             st.none(),
             st.builds(lambda lead, dbg, o: {"lead": lead, "d": lead + dbg, "out": o}, st.sampled_from([0.125, 0.5, 1]), st.sampled_from([0.125, 0.25, 1.5, 2.5]), st.sampled_from(["value", "exc"])),
         ),
+        st.sampled_from([False, False, True]),
     )
 
 
